@@ -669,3 +669,39 @@ class ModelTie:
         if name in SET_ORDER_OPS:
             self.loose = True
         self.sync(g, cur, name, case)
+
+
+# ----------------------------------------------------------------------------- is the real code itself reproducible here?
+
+def real_outcome(mg, recipe, ops, step, tmpdir):
+    """the real geometry after ops[:step+1] from a fresh build (fresh objects => fresh set iteration orders)"""
+    g = G.build(mg, recipe)
+    exc = None
+    for op in ops[:step + 1]:
+        g, exc = G.apply_op(mg, g, op, tmpdir)
+        if exc is not None:
+            break
+    return g, exc
+
+
+def order_dependent(mg, recipe, ops, step, tmpdir, runs=3):
+    """Does the real code's own result at this step vary from run to run (set iteration order)?  Then a
+    model/implementation difference there says nothing: the case is discarded, not reported."""
+    base = None
+    for _ in range(runs + 1):
+        try:
+            g, exc = real_outcome(mg, recipe, ops, step, tmpdir)
+        except G.Unresolved:
+            return True
+        inv = G.geoinv(g)
+        rd = real_dump(g)
+        rd['fresh'] = ModelTie.fresh_flags(None, inv)
+        if base is None:
+            base = (g, exc, rd)
+            continue
+        if exc != base[1]:
+            return True
+        diffs, _, _, _ = compare(g, base[2], rd, rd['fresh'], loose=True)
+        if diffs:
+            return True
+    return False
